@@ -41,6 +41,21 @@ int main(int argc, char** argv)
                 w << "strip_comments(" << show(s) << ") keeps " << sc.size() << " characters, the first comment outside quotes starts at " << refStrip(s);
                 return r.verdict(false, w.str());
             }
+            // del_after_first_slash: everything up to and including the first slash outside quotes (an unbalanced quote
+            // protects the rest of the line); the whole line if there is none
+            {
+                std::size_t keep = s.size(); char q = 0;
+                for (std::size_t i = 0; i < s.size(); ++i) {
+                    if (q) { if (s[i] == q) q = 0; continue; }
+                    if (s[i] == '/') { keep = i + 1; break; }
+                    if (quote(s[i])) { if (s.find(s[i], i + 1) == std::string::npos) break; q = s[i]; }
+                }
+                const auto cut = Opm::str::del_after_first_slash(s);
+                if (cut.data() != s.data() || cut.size() != keep) {
+                    w << "del_after_first_slash(" << show(s) << ") keeps " << cut.size() << " characters, the record ends after " << keep;
+                    return r.verdict(false, w.str());
+                }
+            }
             // trim
             std::size_t b = 0, e = s.size();
             while (b < e && sep(s[b])) ++b;
